@@ -64,10 +64,22 @@ def run(ctx):
     data = learn()
     blocks, raw_blocks = [], []
 
-    def add_block(b):
+    def add_block(b, impolite=False):
         err = ""
         enc = dec = encb = db = bitarray()
         try:
+            if impolite:
+                # a caller that owns what it was given: it damages earlier results in place (channel simulation) and
+                # asks again - every call must still return a fresh, correct result
+                for first in (T.encode(b.tobytes()), T.encode(b.copy())):
+                    first.invert()
+                    first.append(1)
+                e0 = T.encode(b.copy())
+                d0 = T.decode(e0.copy())
+                d0.invert()
+                d1 = T.decode(e0.copy(), as_bytes=True)
+                if isinstance(d1, bytearray):
+                    d1[0] ^= 0xFF
             enc = T.encode(b.copy())
             encb = T.encode(b.tobytes())
             dec = T.decode(enc.copy())
@@ -95,8 +107,29 @@ def run(ctx):
         u = bitarray([0] * 144)
         u[i] = 1
         add_block(u)
-    for _ in range(300 if ctx.quick else 20000):
-        add_block(bitarray([rng.getrandbits(1) for _ in range(144)]))
+    for k in range(300 if ctx.quick else 20000):
+        add_block(bitarray([rng.getrandbits(1) for _ in range(144)]), impolite=k % 3 == 0)
+    for k in range(40):         # the same few blocks again and again, results damaged in between
+        add_block(raw_blocks[k % 5][0].copy(), impolite=True)
+    # the two permutations composed directly (the result of one handed straight to the other, earlier results kept)
+    comp = []
+    for k in range(60 if ctx.quick else 2000):
+        x = array("b", [rng.choice([-3, -1, 1, 3]) for _ in range(98)])
+        rec = {"dir": "di" if k % 2 == 0 else "id", "x": list(x), "y": [0] * 98, "ylater": [0] * 98, "z": [0] * 98, "err": ""}
+        try:
+            f, g = (T.interleave, T.deinterleave) if rec["dir"] == "di" else (T.deinterleave, T.interleave)
+            y = f(x)
+            rec["y"] = [int(v) for v in y]
+            z = g(y)
+            rec["z"] = [int(v) for v in z]
+            rec["ylater"] = [int(v) for v in y]
+            if [int(v) for v in x] != rec["x"]:
+                rec["err"] = "ArgumentAltered"
+        except Exception as ex:  # noqa
+            rec["err"] = type(ex).__name__
+        comp.append(rec)
+        ctx.count(core.digest(["comp", rec["dir"], rec["x"]]))
+    data["comp"] = comp
     # corrupted streams: replace the point at position pos by another point
     bad = []
     inv_i = data["I"]           # out[j] = in[I[j]]
@@ -133,7 +166,7 @@ def run(ctx):
                       "(transition table learned from the implementation is not row-injective)", {"trace": [s.get("_text") for s in res.trace]})
     elif not res.ok:
         raise core.MachineryError("TLC did not complete")
-    ctx.traces_validated = len(blocks) + len(bad)
+    ctx.traces_validated = len(blocks) + len(bad) + len(comp)
     ctx.exhaustive = False
     ctx.note("structure_exhaustive", True)
     groups = {}
@@ -142,7 +175,7 @@ def run(ctx):
     for (ph, why), idxs in sorted(groups.items()):
         ctx.violation(f"trellis/{why}", f"{why}: {len(idxs)} {ph} items fail, first index {idxs[0]}",
                       {"phase": ph, "clause": why, "count": len(idxs),
-                       "first": (blocks[idxs[0]] if ph == "block" else bad[idxs[0]] if ph == "bad" else None)})
+                       "first": (blocks[idxs[0]] if ph == "block" else bad[idxs[0]] if ph == "bad" else comp[idxs[0]] if ph == "comp" else None)})
     drift = {}
     for v in core.parse_printed_json(res, tag="DRIFT"):
         drift.setdefault((v["phase"], v["why"]), []).append(v["idx"])
